@@ -164,8 +164,8 @@ Print Assumptions C11_qual_characterisation.
    < t (C11_dkg_result_spec + C11_result_agreement).  Missing: uniqueness of
    Lagrange interpolation (property C07) is not re-proved here.
 
-   all_honest_complete_partial, rabin_agreement_partial: correspondence and
-   oracles only (RabinDKG.v is an executable model without theorems). *)
+   (superseded for the fresh DKG by the cross-phase theorems below and for the
+   Rabin DKG by C11_rabin_*; see rabin_partial at the end of this file) *)
 
 (* non-vacuity: a concrete store history, and a concrete 3-node fresh DKG over
    Z_251 in which node 1 receives an invalid share from dealer 2, complains,
@@ -225,8 +225,10 @@ Proof. vm_compute. reflexivity. Qed.
    induction over the phases showing that the public views (dview, evicted
    holders) of two honest NEW nodes coincide is proved for the fresh DKG only
    (the system semantics of DKG/Agreement.v has one node list) - for resharing it
-   is carried by the correspondence and the oracles.  The Rabin DKG remains
-   _partial (executable model, correspondence and oracles).
+   is carried by the correspondence and the oracles (per-phase facts for every
+   configuration: C11_reshare_deal_phase_public_view,
+   C11_reshare_responses_holder_flags, C11_responses_column_function).  Rabin
+   DKG: C11_rabin_* at the end of this file; rabin_partial lists what is left.
    ====================================================================== *)
 From Coq Require Import ZArith Znumtheory List Bool Permutation.
 From Kyber Require Import Algebra.Zq Algebra.Grp DKG.PacketSet DKG.PedersenDKG DKG.PedersenProofs.
@@ -567,3 +569,194 @@ Proof.
   split; intros e I; vm_compute in I; repeat (destruct I as [<-|I]; [|]); try contradiction;
     try (unfold index_ok, Kyber.Share.ShamirProofs.idx_ok; cbn; lia); vm_compute; reflexivity.
 Qed.
+
+(* ================================================================== *)
+(* RABIN DKG (share/dkg/rabin over share/vss/rabin; model DKG/RabinDKG.v,
+   proofs DKG/RabinProofs.v).  [rexec q n t me s ks]: the state of node [me]
+   after the calls [ks]; [qual]: QUAL(); [dist_key_share]: DistKeyShare(). *)
+From Kyber Require Import DKG.RabinDKG DKG.RabinProofs.
+
+(* result: at least t qualified dealers, each with a verifier record and stored
+   secret commitments; the public key is the sum of the qualified dealers'
+   constant commitments; the share is the sum of the shares received from them
+   and lies on the output polynomial when the stored commitments are valid for
+   the received shares *)
+Theorem C11_rabin_result_spec :
+  forall q n t me (s : rst q) p sh,
+    dist_key_share q n t s = Some (p, sh) ->
+    t <= Z.of_nat (length (qual q n s)) /\
+    (forall i, In i (qual q n s) -> exists a pc, lookb i (r_ver q s) = Some a /\ lookb i (r_commits q s) = Some pc) /\
+    hd zzero p = psum (map (fun i => hd zzero (com_of q s i)) (qual q n s)) /\
+    sh = fold_right zadd zzero (map (sec_of q s) (qual q n s)) /\
+    ((forall i, In i (qual q n s) -> commit q (sec_of q s i) = peval q (com_of q s i) (xof q me)) ->
+     commit q sh = peval q p (xof q me)).
+Proof. exact rabin_result_spec. Qed.
+Print Assumptions C11_rabin_result_spec.
+
+(* ... and the stored commitments of the OTHER dealers are valid along every
+   run: ProcessSecretCommits stores them only after checking them against the
+   share received from that dealer, a verifier record never changes its share;
+   so the output share lies on the output polynomial (the node's own
+   commitments being those of the polynomial it dealt from) *)
+Theorem C11_rabin_commits_valid_along_run :
+  forall q n t me ks (s : rst q), commits_ok q me s -> commits_ok q me (rexec q n t me s ks).
+Proof. exact exec_commits_ok. Qed.
+Print Assumptions C11_rabin_commits_valid_along_run.
+
+Theorem C11_rabin_share_on_polynomial :
+  forall q n t me ks p sh,
+    let s := rexec q n t me (init_rst q t) ks in
+    dist_key_share q n t s = Some (p, sh) ->
+    (In me (qual q n s) -> commit q (sec_of q s me) = peval q (com_of q s me) (xof q me)) ->
+    commit q sh = peval q p (xof q me).
+Proof. exact rabin_share_on_polynomial. Qed.
+Print Assumptions C11_rabin_share_on_polynomial.
+
+(* agreement: two nodes with the same public view (per dealer: recorded
+   responses, bad-dealer flag, threshold; pending complaint; stored secret
+   commitments) that both complete output the same QUAL and polynomial *)
+Theorem C11_rabin_agreement :
+  forall q n t (s1 s2 : rst q) p1 sh1 p2 sh2,
+    rview q n s1 = rview q n s2 ->
+    dist_key_share q n t s1 = Some (p1, sh1) -> dist_key_share q n t s2 = Some (p2, sh2) ->
+    qual q n s1 = qual q n s2 /\ p1 = p2.
+Proof. exact rabin_agreement. Qed.
+Print Assumptions C11_rabin_agreement.
+
+(* QUAL = dealers whose deal is certified (t approvals, everybody answered or
+   timed out, no bad justification) and against whom no complaint is pending *)
+Theorem C11_rabin_in_qual_iff :
+  forall q n (s : rst q) i,
+    In i (qual q n s) <->
+    0 <= i < n /\ exists a, lookb i (r_ver q s) = Some a /\ deal_certified q n a = true /\ has_pend i (r_pend q s) = false.
+Proof. exact in_qual_iff. Qed.
+Print Assumptions C11_rabin_in_qual_iff.
+
+(* a recorded complaint about another dealer becomes pending, and a dealer
+   with a complaint that NO valid justification of THAT complaint answers is
+   out of QUAL whatever else is processed - in particular valid justifications
+   of other complaints against the same dealer do not help (the class of the
+   seeded change C11-m3) *)
+Theorem C11_rabin_complaint_recorded :
+  forall q n t me (s : rst q) d v a oe oj,
+    d <> me -> lookb d (r_ver q s) = Some a -> 0 <= v < n -> lookb v (a_resps q a) = None ->
+    In (d, v) (r_pend q (rstep q n t me s (RResp d v false true true true oe oj))).
+Proof. exact complaint_recorded. Qed.
+Print Assumptions C11_rabin_complaint_recorded.
+
+Theorem C11_rabin_unjustified_dealer_disqualified :
+  forall q n t me ks (s : rst q) d v,
+    d <> me -> In (d, v) (r_pend q s) -> (forall k, In k ks -> ~ justifies q d v k) ->
+    ~ In d (qual q n (rexec q n t me s ks)).
+Proof. exact unjustified_dealer_disqualified. Qed.
+Print Assumptions C11_rabin_unjustified_dealer_disqualified.
+
+(* an invalid justification of a recorded complaint condemns the dealer for good *)
+Theorem C11_rabin_invalid_justification_disqualifies :
+  forall q n t me ks (s : rst q) d v a oe,
+    lookb d (r_ver q s) = Some a -> 0 <= v < n -> lookb v (a_resps q a) = Some false ->
+    ~ In d (qual q n (rexec q n t me (rstep q n t me s (RJust d v false oe)) ks)).
+Proof. exact invalid_justification_disqualifies. Qed.
+Print Assumptions C11_rabin_invalid_justification_disqualifies.
+
+(* a dealer whose deal everybody approved (validly justified complaints count
+   as approvals) and who is neither flagged nor complained about is in QUAL *)
+Theorem C11_rabin_approved_dealer_in_qual :
+  forall q n (s : rst q) d a,
+    0 <= d < n -> lookb d (r_ver q s) = Some a -> all_approved q n a -> a_t q a <= n -> a_bad q a = false ->
+    has_pend d (r_pend q s) = false -> In d (qual q n s).
+Proof. exact approved_dealer_in_qual. Qed.
+Print Assumptions C11_rabin_approved_dealer_in_qual.
+
+(* response phase: responses about other dealers with pairwise distinct
+   (dealer, verifier) - nobody equivocates - may be processed in any order: the
+   states are equal up to the order of the records, QUAL and the stored
+   commitments are equal.  (With two different responses of one verifier about
+   one dealer the first one wins: aggregator.addResponse.) *)
+Theorem C11_rabin_responses_order_independent :
+  forall q n t me (ks ks' : list (rcall q)) (s : rst q),
+    Permutation ks ks' -> NoDup (map (rkey q) ks) -> (forall k, In k ks -> is_resp3 q me k) -> st_wf q s ->
+    st_equiv q (rexec q n t me s ks) (rexec q n t me s ks') /\
+    qual q n (rexec q n t me s ks) = qual q n (rexec q n t me s ks') /\
+    (forall d, lookb d (r_commits q (rexec q n t me s ks)) = lookb d (r_commits q (rexec q n t me s ks'))).
+Proof. exact responses_order_independent. Qed.
+Print Assumptions C11_rabin_responses_order_independent.
+
+(* rabin_partial (what is NOT a theorem): order independence of the
+   justification phase and of the responses about the node's OWN deal (they
+   also drive the node's own aggregator and its justifications);
+   ProcessComplaintCommits / ProcessReconstructCommits are not modelled; the
+   cross-node statement "the public views of two honest nodes coincide after
+   each phase" (C11_rabin_agreement takes equal views as a premise).  Carried
+   by the correspondence and the oracles of harness/cmd/c11. *)
+
+(* non-vacuity: node 1 of 3 (t = 2) over Z_251; dealer 0 gave node 2 an invalid
+   deal, node 2 complains.  With dealer 0's valid justification everybody is
+   qualified and the key is 3+7+11; without it dealer 0 is out and the key is
+   7+11; the model run accepts the call sequence; the responses may come in the
+   reverse order. *)
+Definition bq : Z := 251.
+Definition bf (v : Z) : zq bq := of_Z bq v.
+Definition bpoly (i : Z) : list (zq bq) := map bf (if i =? 0 then [3; 5] else if i =? 1 then [7; 2] else [11; 1]).
+Definition bshare (i : Z) : zq bq := peval bq (bpoly i) (xof bq 1).
+Definition bdeals : list (rcall bq) :=
+  [RDeal 1 true true 2 (bshare 1) false true; RDeal 0 true true 2 (bshare 0) false true; RDeal 2 true true 2 (bshare 2) false true].
+Definition bresps : list (rcall bq) :=
+  [RResp 0 2 false true true true false false; RResp 1 0 true true true true false false;
+   RResp 1 2 true true true true false false; RResp 2 0 true true true true false false].
+Definition bfinish : list (rcall bq) :=
+  [RTimeout; RSecCommits (Some (bpoly 1)); RProcSC 0 (bpoly 0) true true false false; RProcSC 2 (bpoly 2) true true false false].
+Definition bjust : list (rcall bq) := [RJust 0 2 true false].
+Definition brun (rs js : list (rcall bq)) := rexec bq 3 2 1 (init_rst bq 2) (bdeals ++ rs ++ js ++ bfinish).
+
+Example C11_rabin_nonvacuous :
+  qual bq 3 (brun bresps bjust) = [0; 1; 2] /\ qual bq 3 (brun bresps []) = [1; 2] /\
+  qual bq 3 (brun (rev bresps) bjust) = [0; 1; 2] /\
+  match dist_key_share bq 3 2 (brun bresps bjust) with
+  | Some (p, sh) => map val p = [21; 8] /\ val sh = 37 /\ commit bq sh = peval bq p (xof bq 1)
+  | None => False
+  end /\
+  match dist_key_share bq 3 2 (brun bresps []) with Some (p, sh) => map val p = [18; 3] | None => False end /\
+  rabin_run bq 3 2 1 (bdeals ++ bresps ++ bjust ++ bfinish) = true /\
+  In (0, 2) (r_pend bq (rexec bq 3 2 1 (init_rst bq 2) (bdeals ++ bresps))).
+Proof. vm_compute. repeat split; auto. Qed.
+
+(* ================================================================== *)
+(* Towards the cross-phase agreement of a RESHARING (DKG/ReshareViews.v).
+   C11_reshare_agreement needs two honest new nodes to hold the same public
+   view.  Proved for every configuration (old dealers, new holders, both):
+   the eviction flags and stored public polynomials after ProcessDeals, the
+   status-matrix columns of third parties (C11_responses_column_function) and
+   the holder records after the response bundles are functions of the boards.
+
+   reshare_cross_phase_partial - still missing for the full induction: (a) the
+   node's OWN column: that what it holds for itself equals what the others derive
+   from its response bundle (my_responses) - for a resharing this involves the
+   evicted-dealer cells that are never announced and are neutralised by
+   complete_success / mark_evicted; (b) that the eviction steps of
+   ProcessResponses (evict_silent, evict_complained) and the finish decision
+   coincide - they are functions of the columns and holder records above, which
+   remains to be assembled; (c) the justification phase (just_step reads d_ev,
+   d_pub: equal by the deal-phase theorem; writes cells and d_ev); (d) the
+   system semantics with two node lists tying these per-phase facts to boards
+   (DKG/Agreement.v has one list).  The correspondence and the oracles of
+   harness/cmd/c11 carry the end-to-end statement. *)
+From Kyber Require Import DKG.ReshareViews.
+
+Theorem C11_reshare_deal_phase_public_view :
+  forall q (c1 c2 : cfg q) (bs : list (deal_bundle q)) s1 s2,
+    c_new c1 = c_new c2 -> c_thr c1 = c_thr c2 ->
+    (forall b, In b bs -> own_bundle q c1 b = false /\ own_bundle q c2 b = false) ->
+    dpubs q s1 = dpubs q s2 ->
+    dpubs q (fold_left (deal_fold q c1) bs s1) = dpubs q (fold_left (deal_fold q c2) bs s2).
+Proof. exact deal_phase_public_view. Qed.
+Print Assumptions C11_reshare_deal_phase_public_view.
+
+Theorem C11_reshare_responses_holder_flags :
+  forall q (c1 c2 : cfg q) bs s1 s2,
+    c_old c1 = c_old c2 -> c_new c1 = c_new c2 -> c_fast c1 = c_fast c2 ->
+    (forall b, In b bs -> skips q c1 b = skips q c2 b) ->
+    s_h s1 = s_h s2 ->
+    s_h (fold_left (resp_step q c1) bs s1) = s_h (fold_left (resp_step q c2) bs s2).
+Proof. exact responses_holder_flags. Qed.
+Print Assumptions C11_reshare_responses_holder_flags.
